@@ -168,3 +168,22 @@ def run(ctx):
     ctx.count("cli", 2)
     if impl[3].tag == "ok" and (res[0].stdout.decode().strip() != "0x" + impl[3].fields[0].hex() or res[1].stdout.decode().strip() != "0x" + impl[3].fields[2].hex()):
         ctx.violation("cli-hash-typeddata", dict(document=short(d, 300)), [impl[3].fields[0].hex(), impl[3].fields[2].hex()], [str(x)[:120] for x in res])
+
+    # a very long array (300 000 elements): hashing is linear in the number of elements; the digest is checked against the
+    # independent EIP-712 (pure-Python Keccak over 9.6 MB would take minutes, so the element hash is built from the harness's
+    # sha3-crate Keccak over the concatenated words)
+    n_arr = 300000 if not thorough else 1000000
+    types_ = {"Big": [("xs", "uint32[]")]}
+    all_ = dict(types_, EIP712Domain=[("name", "string")])
+    words_ = b"".join((i & 0xffffffff).to_bytes(32, "big") for i in range(n_arr))
+    kk = ctx.harness([("prim.keccak", words_)], timeout=300)[0]
+    big_doc = json.dumps({"types": {k: [{"name": n, "type": t} for n, t in v] for k, v in all_.items()}, "primaryType": "Big", "domain": {"name": "big"},
+                          "message": {"xs": list(range(n_arr))}})
+    rb2 = ctx.cli([dict(args=["hash", "typeddata", "--message-hash", "-"], stdin=big_doc.encode(), timeout=90)], timeout=90)[0]
+    ctx.count("very-long-array")
+    if kk.tag == "ok":
+        th = pyref.keccak256(b"Big(uint32[] xs)")
+        want_ = pyref.keccak256(th + kk.fields[0])
+        if rb2.cls != "ok" or rb2.stdout.decode().strip() != "0x" + want_.hex():
+            ctx.violation("large-input-takes-too-long-or-fails", dict(op="hdwallet hash typeddata --message-hash", array_elements=n_arr), "0x" + want_.hex() + " within 90 s", str(rb2)[:200])
+
